@@ -27,7 +27,8 @@ m = dict(
     engines=[dict(name="contracts", path="/verif/check", serves_properties=sorted(idx),
                   kind_free_text="contract-based deductive verification: Verus on functions extracted verbatim from /repo each run (tools/vgen.py), Kani/CBMC proof harnesses on a scratch copy for finite-domain functions and counterexamples")],
     checks=checks,
-    notes="exit 0 holds / exit 1 VIOLATION / exit 2 undecided (lost anchor, unsupported construct, solver limit, vacuity guard) - never an alarm. See DESIGN.md.",
+    notes="exit 0 holds / exit 1 VIOLATION / exit 2 undecided (lost anchor, unsupported construct, solver limit, vacuity guard) - never an alarm. See DESIGN.md. "
+          "No hook commits. Unguarded `fix:` commits in /repo (genuine defects, known_findings.txt has the `fixed:` lines): 4e402dc (F3), 3004d0a (F2), c0c6a9f (F5), ce9f872 (F6 edge), 346b94f (F9), f1e4d97 (F12), d243e00 (F13); f8988d7 (F7) was withdrawn by 53178b9.",
     not_applicable=na,
 )
 json.dump(m, open(V + "/MANIFEST.json", "w"), indent=1)
